@@ -120,8 +120,7 @@ func sortedMapEntries(what string, params []any) ([]any, []any, error) {
 	}
 	mapKeys := v.MapKeys()
 	sort.Slice(mapKeys, func(i, j int) bool {
-		a, b := mapKeys[i].Interface(), mapKeys[j].Interface()
-		return fmt.Sprintf("%v|%T", a, a) < fmt.Sprintf("%v|%T", b, b)
+		return keyLess(mapKeys[i].Interface(), mapKeys[j].Interface())
 	})
 	keys := make([]any, len(mapKeys))
 	values := make([]any, len(mapKeys))
